@@ -6,6 +6,7 @@ from mpgameserver.serializable import Serializable, SerializableEnum
 
 
 class Color(SerializableEnum):
+    NONE = 0
     RED = 1
     GREEN = 2
     BLUE = 3
